@@ -1,9 +1,9 @@
 package plans
 
 import (
-	"strings"
-	"sort"
 	"math/rand"
+	"sort"
+	"strings"
 
 	"verif/internal/abs"
 	"verif/internal/core"
@@ -44,6 +44,37 @@ func findStageP(fname string, r *rand.Rand, n int, special bool, gp gen.Params) 
 			if special {
 				g.KeyStr = SpecialKeys
 			}
+			// every schema node is the target at least once, whatever the seed: trees are drawn
+			// (densely populated) until each schema path has been seen in one, and the first tree
+			// that holds a path is used for it - from the root, and from the node's grandparent
+			if !special {
+				dg := &gen.G{DS: f.DS, R: r, P: gen.Params{PLeaf: 0.9, PCont: 0.9, PList: 0.9, MaxEntries: 2, MaxDepth: 8}}
+				covered := map[string]bool{}
+				for try := 0; try < 400 && len(covered) < len(f.DS); try++ {
+					t := dg.Subtree(abs.Path{})
+					store := stores[try%len(stores)]
+					var all []abs.Path
+					all = append(all, gen.Nodes(t)...)
+					for _, l := range t.Leaf {
+						all = append(all, l.P)
+					}
+					for _, target := range all {
+						k := strings.Join(target.SPath(), "/")
+						if len(target) == 0 || covered[k] {
+							continue
+						}
+						covered[k] = true
+						c := core.Case{"kind": "find", "fixture": fname, "store": store, "tree": t, "from": abs.Path{}, "target": target, "variant": "plain", "unknown": ""}
+						if target.IsEntry() || len(target) > 2 {
+							c["nokey"] = len(covered)%2 == 0
+						}
+						emit(c)
+						if len(target) > 2 {
+							emit(core.Case{"kind": "find", "fixture": fname, "store": store, "tree": t, "from": target[:len(target)-2], "target": target, "variant": "qualified", "unknown": ""})
+						}
+					}
+				}
+			}
 			for i := 0; i < n; i++ {
 				t := g.Subtree(abs.Path{})
 				store := stores[i%len(stores)]
@@ -58,7 +89,9 @@ func findStageP(fname string, r *rand.Rand, n int, special bool, gp gen.Params) 
 					froms = append(froms, nodes[1+r.Intn(len(nodes)-1)])
 				}
 				emitFind := func(from, target abs.Path, variant, unknown string) {
-					emit(core.Case{"kind": "find", "fixture": fname, "store": store, "tree": t, "from": from, "target": target, "variant": variant, "unknown": unknown})
+					// now and then through a node that answers a keyed request without repeating the key
+					emit(core.Case{"kind": "find", "fixture": fname, "store": store, "tree": t, "from": from, "target": target, "variant": variant, "unknown": unknown,
+						"nokey": unknown == "" && r.Intn(5) == 0})
 				}
 				r.Shuffle(len(targets), func(a, b int) { targets[a], targets[b] = targets[b], targets[a] })
 				if len(targets) > 12 {
@@ -203,8 +236,8 @@ func planC08(tier string, seed int64) (*core.Plan, error) {
 			TLC:         core.TLCRun{Module: "FcPathModel", Workers: 16, HeapGB: 8},
 			Description: "path text as token sequences: Parse(Render(p)) = p, trailing slash, strict encoding, for every key value of length <= 2 over an alphabet containing every character with a meaning in the syntax, single and compound keys, paths of 1-2 steps",
 		}},
-		Rule: "seeded random trees on S0, S1 (compound keys, nested lists, nested choices), S2 (keys of every type), P0; per tree: Find from the root and from 2 random nodes (leading ../) to up to 12 existing nodes (containers, lists, entries, leaves) in plain / module-qualified / trailing-slash form, to absent entries / containers / lists, and to a name not in the schema; a stage with key strings containing / , = % space + ? # & ; .. and non-ASCII; for each found selection its path is rendered and looked up again; non-trivial: the target is not the root",
-		NonTrivial: func(r core.Rec) bool { return r["chk"] == "find" },
+		Rule:        "seeded random trees on S0, S1 (compound keys, nested lists, nested choices), S2 (keys of every type), P0; per tree: Find from the root and from 2 random nodes (leading ../) to up to 12 existing nodes (containers, lists, entries, leaves) in plain / module-qualified / trailing-slash form, to absent entries / containers / lists, and to a name not in the schema; a stage with key strings containing / , = % space + ? # & ; .. and non-ASCII; for each found selection its path is rendered and looked up again; non-trivial: the target is not the root",
+		NonTrivial:  func(r core.Rec) bool { return r["chk"] == "find" },
 		Assumptions: []string{"path texts are rendered by the harness with strict percent-encoding (everything outside ALPHA DIGIT - . _ ~)", "an unset leaf of an existing node: outcome not stated by the property (admitted either way)"},
 	}
 	for _, fname := range []string{"S0", "S1", "S2", "P0", "S7"} {
